@@ -181,7 +181,9 @@ class C02(Prop):
         c = 2.0 ** mk
         # the outlier test compares |median| with the absolute threshold 1e-8: stay away from it
         lo, hi = 1e-8 / 1e4, 1e-8 * 1e4
-        mags = np.abs(vals)
+        # (the median of the estimates is not observable: the final value and the reported spread
+        # are used as proxies for its magnitude)
+        mags = np.concatenate([np.abs(vals), np.abs(np.asarray(ev.info.error_estimate).ravel())])
         for m in (mags, mags * c):
             if np.any((m > lo) & (m < hi)):
                 ctx.count('metamorphic skipped: near the 1e-8 outlier threshold')
@@ -210,9 +212,10 @@ class C02(Prop):
         if case is None:
             return {'clause': v.clause, 'method': v.details.get('method')}
         big = max(exprs.max_abs_argument(case['tree'], float(xv), ('tanh',)) for xv in case['x'])
+        tiny = min(exprs.min_abs_pow_base(case['tree'], float(xv)) for xv in case['x'])
         return {'clause': v.clause, 'method': case['method'], 'n': case['n'],
                 'k_est': v.details.get('k_est'), 'ops': sorted(exprs.ops(case['tree'])),
-                'tanh_arg_over_300': bool(big > 300), 'step_kind': case['step']['kind'],
+                'tanh_arg_over_300': bool(big > 300), 'pow_base_below_1e-15': bool(tiny < 1e-15), 'step_kind': case['step']['kind'],
                 'exception': v.details.get('exception')}
 
     def finalize(self, merged, tier):
